@@ -61,6 +61,7 @@ class FnTarget:
         self.params_to_let = False  # R8: destructuring closure parameters become a `let` at the head of the closure body
         self.omit = False
         self.canary = True
+        self.opt_member = False  # `//@ fn? NAME`: the member may be absent from the impl/trait (skipped + recorded)
 
 
 class Block:
@@ -232,6 +233,13 @@ class Assembler:
                         close_field()
                         if d == 'end':
                             break
+                        elif d.startswith('fn? '):
+                            # optional member target: when the impl/trait has no fn NAME the splices addressed to it are
+                            # skipped (recorded `O ...`) instead of ending anchor-lost -- a method that exists only after
+                            # a repair; the contracts of the members that DO exist decide
+                            nm = d[4:].strip()
+                            blk.cur = blk.fns.setdefault(nm, FnTarget(nm))
+                            blk.cur.opt_member = True
                         elif d.startswith('fn '):
                             nm = d[3:].strip()
                             blk.cur = blk.fns.setdefault(nm, FnTarget(nm))
@@ -438,6 +446,27 @@ class Assembler:
         def fn_edits(fn_item, tgt):
             if blk.impl_to_generic:
                 self._impl_trait_edits(src, blk, fn_item, edits)
+            if tgt and not getattr(tgt, 'params_resolved', False):
+                # `$N` in a spec / loop / head / hint text = the name of the N-th parameter after the receiver, as it
+                # is written in the tree (a contract that survives the renaming of a parameter, `_dim_list` -> `dim_list`)
+                tgt.params_resolved = True
+                used = [bool(x and re.search(r'\$\d', x)) for x in
+                        [tgt.spec, tgt.head, tgt.tail] + list(tgt.loops.values()) + [h[1] for h in tgt.hints]]
+                if any(used):
+                    names = self._param_names(src, fn_item)
+
+                    def _sub(mo):
+                        n = int(mo.group(1))
+                        if not (1 <= n <= len(names)):
+                            raise AnchorLost('fn %s has no parameter #%d (%s)' % (fn_item.name, n, blk.relpath))
+                        return names[n - 1]
+
+                    def _res(x):
+                        return re.sub(r'\$(\d)', _sub, x) if x else x
+                    tgt.spec, tgt.head, tgt.tail = _res(tgt.spec), _res(tgt.head), _res(tgt.tail)
+                    tgt.loops = {k_: _res(v_) for k_, v_ in tgt.loops.items()}
+                    tgt.hints = [(a_, _res(b_), c_) for (a_, b_, c_) in tgt.hints]
+                    self.rewrites.append('P %s fn %s: $N in the spliced text = parameter names %s' % (blk.relpath, fn_item.name, names))
             if fn_item.st_body is None:
                 # trait method declaration without body: spec goes before ';'
                 if tgt and tgt.ret:
@@ -776,6 +805,10 @@ class Assembler:
                     self.fn_origin[ch.name] = (blk.relpath, self._path(parents + [item], ch))
             for nm, tgt in blk.fns.items():
                 if not any(ch.kind == 'fn' and ch.name == nm for ch in src.children(item)):
+                    if tgt.opt_member:
+                        self.dropped.append('O %s optional member fn %s absent from %s, its splices skipped'
+                                            % (blk.relpath, nm, item.name))
+                        continue
                     raise AnchorLost('no fn %s in %s of %s' % (nm, item.name, blk.relpath))
             if blk.members:
                 close = src.st[item.st_body[1]].start
@@ -834,6 +867,50 @@ class Assembler:
     def _path(self, parents, item):
         names = [p.name for p in parents if p.name] + [item.name or item.kind]
         return ' :: '.join(names)
+
+    def _param_names(self, src, fn_item):
+        """identifiers of the parameters of fn_item after the receiver, in order (simple `name: T` / `mut name: T`
+        parameters; a pattern parameter yields '_')"""
+        st = src.st
+        i0 = next(i for i, t in enumerate(st) if t.start >= fn_item.kw_start and t.text == 'fn')
+        k = i0 + 2
+        if st[k].text == '<':
+            depth = 0
+            while True:
+                if st[k].text == '<':
+                    depth += 1
+                elif st[k].text == '>' and not (st[k - 1].text == '-' and st[k - 1].end == st[k].start):
+                    depth -= 1
+                    if depth == 0:
+                        break
+                k += 1
+            k += 1
+        if st[k].text != '(':
+            return []
+        kc = match_close(st, k)
+        groups, cur, depth = [], [], 0
+        for q in range(k + 1, kc):
+            tq = st[q]
+            if tq.kind == 'punct' and tq.text in '([{<':
+                depth += 1
+            elif tq.kind == 'punct' and tq.text in ')]}>' and not (tq.text == '>' and st[q - 1].text == '-'):
+                depth -= 1
+            if tq.kind == 'punct' and tq.text == ',' and depth == 0:
+                groups.append(cur)
+                cur = []
+            else:
+                cur.append(q)
+        if cur:
+            groups.append(cur)
+        names = []
+        for g in groups:
+            toks = [st[q].text for q in g]
+            if 'self' in toks[:3]:
+                continue
+            if toks and toks[0] == 'mut':
+                toks = toks[1:]
+            names.append(toks[0] if len(toks) >= 2 and toks[1] == ':' and re.match(r'^[A-Za-z_]\w*$', toks[0]) else '_')
+        return names
 
     def _impl_trait_edits(self, src, blk, fn_item, edits):
         """R11 (opt-in `//@ impl-trait-to-generic`): `fn f(x: &impl Tr)` -> `fn f<__RbvI1: Tr>(x: &__RbvI1)`: the
